@@ -26,6 +26,7 @@ type caseT struct {
 	Tracing bool `json:"tracing"`
 	// FailW: every body write reports an error (broken pipe) after the bytes were taken
 	FailW  bool      `json:"failw,omitempty"`
+	Health bool      `json:"health,omitempty"` // app with app.WithHealthEndpoints()
 	Script []cx.Op   `json:"script"`
 	Beh    []cx.Beh  `json:"beh"`
 	Target cx.Target `json:"target"`
@@ -41,6 +42,7 @@ type entry struct {
 }
 
 type gen struct {
+	nSpecial int
 	vpaths   map[int]map[int]bool // URL path tag of a direct version route -> versions that declare it
 	vorder   []int
 	nAlias   int
@@ -81,7 +83,15 @@ func (g *gen) hs(lo, hi int) []int {
 	return out
 }
 
-func (g *gen) seg() int { g.nextSeg++; return g.nextSeg }
+func (g *gen) seg() int {
+	// one segment in twelve is a path that means something elsewhere in the framework (/health, /metrics, /debug, /admin …)
+	if g.nSpecial < len(cx.SpecialNames) && g.r.Chance(1, 12) {
+		g.nSpecial++
+		return cx.SpecialSeg + g.nSpecial - 1
+	}
+	g.nextSeg++
+	return g.nextSeg
+}
 
 // vseg: the segment of a route declared directly on a version router — one in two re-uses the URL path of
 // a route of ANOTHER version (cx.AliasSeg: the model keeps the tags apart, the router sees the same path
@@ -607,7 +617,7 @@ func genScript(r *hx.Rand, st *hx.Stats) (caseT, []cx.Target) {
 			g.addEntry(0, entry{nil, i, []int{sg}, -1})
 		}
 	}
-	c := caseT{Check: !r.Chance(1, 4), Compiled: r.Chance(1, 3), NoRoute: r.Chance(1, 4), Tracing: g.app && r.Chance(1, 3), FailW: r.Chance(1, 5), Script: g.script}
+	c := caseT{Check: !r.Chance(1, 4), Compiled: r.Chance(1, 3), NoRoute: r.Chance(1, 4), Tracing: g.app && r.Chance(1, 3), FailW: r.Chance(1, 5), Health: g.app && r.Chance(1, 4), Script: g.script}
 	for h := 1; h <= g.nextH; h++ {
 		c.Beh = append(c.Beh, cx.Beh{H: h, Acts: genBeh(r, st)})
 	}
@@ -714,7 +724,7 @@ func countEnters(tr []string) int {
 }
 
 func runScript(idp string, c caseT, ts []cx.Target, w *hx.Rand, st *hx.Stats, out func(string)) {
-	world, err := cx.Build(c.Script, cx.BuildOpts{Check: c.Check, Compiled: c.Compiled, NoRoute: c.NoRoute, Tracing: c.Tracing})
+	world, err := cx.Build(c.Script, cx.BuildOpts{Check: c.Check, Compiled: c.Compiled, NoRoute: c.NoRoute, Tracing: c.Tracing, Health: c.Health})
 	if world != nil {
 		world.FailWrites = c.FailW
 	}
@@ -797,6 +807,12 @@ func fixed() []struct {
 			{K: "AR", OK: "a", Seg: 1, Hs: []int{1, 2, 3}, H: 4, Hs2: []int{5, 6}}, {K: "AR", OK: "a", Seg: 2, Hs: []int{1, 2}, H: 3, Hs2: []int{5, 6}}},
 			Beh: beh(6, nil)},
 			[]cx.Target{{Route: 0, Path: []int{1}, Ver: -1}, {Route: 1, Path: []int{2}, Ver: -1}}},
+		// application-wide middleware (Use + WithMiddleware-style) applies to application routes at /health and /debug/…
+		{caseT{Check: true, Script: []cx.Op{
+			{K: "AU", Hs: []int{1}}, {K: "AR", OK: "a", Seg: cx.SpecialSeg, H: 2}, {K: "AG", Seg: cx.SpecialSeg + 2, Hs: []int{3}},
+			{K: "AR", OK: "ag", A: 0, Seg: 1, H: 4}, {K: "AR", OK: "a", Seg: cx.SpecialSeg + 6, H: 5}},
+			Beh: beh(5, map[int][]cx.Act{1: a("A")})},
+			[]cx.Target{{Route: 1, Path: []int{cx.SpecialSeg}, Ver: -1}, {Route: 3, Path: []int{cx.SpecialSeg + 2, 1}, Ver: -1}, {Route: 4, Path: []int{cx.SpecialSeg + 6}, Ver: -1}}},
 		// a sub-router whose routes come from a route group (handlers passed as plain func values) is mounted
 		{caseT{Check: true, Script: []cx.Op{
 			{K: "NR"}, {K: "G", A: 1, Seg: 1, Hs: []int{1}}, {K: "GU", A: 0, Hs: []int{2, 3}},
@@ -856,7 +872,7 @@ func main() {
 				out(fmt.Sprintf("# cannot replay %q: %v", id, err))
 				continue
 			}
-			world, err := cx.Build(c.Script, cx.BuildOpts{Check: c.Check, Compiled: c.Compiled, NoRoute: c.NoRoute, Tracing: c.Tracing})
+			world, err := cx.Build(c.Script, cx.BuildOpts{Check: c.Check, Compiled: c.Compiled, NoRoute: c.NoRoute, Tracing: c.Tracing, Health: c.Health})
 			if world != nil {
 				world.FailWrites = c.FailW
 			}
